@@ -1,7 +1,10 @@
 (** C03 - Queries visit exactly the matching entities, once; Count/EntityAt/Step agree.
     Statements only; proofs in Proofs/Cursor.v (cursor machine against the flat
-    enumeration) and Proofs/WorldInv.v (the enumeration against the world, see below). *)
-From Arche Require Import Model.Base Model.World Model.Ops Proofs.Cursor.
+    enumeration) and Proofs/QueryExact.v (the enumeration against the world: exactly the
+    alive entities whose mask and relation target match, for any registry, with relation
+    tables and retired tables). *)
+From Arche Require Import Model.Base Model.Filter Model.World Model.Ops Proofs.Cursor
+  Proofs.Store Proofs.WorldInv Proofs.RelGraph Proofs.RelWorld Proofs.QueryExact.
 
 (** Iterating [Next] from a fresh query visits exactly the enumeration, in order, each
     position once, and then reports exhaustion. *)
@@ -32,6 +35,27 @@ Theorem C03_step : forall fuel q k,
   end.
 Proof. exact step_is_iter_next. Qed.
 
+(** The world side.  In every world satisfying the storage and graph invariants (they hold
+    in every state reachable by the single-entity core, C01), for every filter expression
+    (And/Or/Not/... of masks) with optional relation target, an uncached query visits a
+    list of entities that has no repetition and contains exactly the alive entities that
+    match ([ent_matches]: mask matches; if the filter names a target and the entity has a
+    relation component, its target is that one). *)
+Theorem C03_query_visits_exact : forall w live f b l,
+  world_okr w live ->
+  let q := fresh (plain_segs w (walk_tables w f)) b l in
+  exists L, map (pos_ent w) (visit (S (length (enum (q_segs q)))) q) = map Some L /\ NoDup L /\
+    forall e, e ∈ L <-> (e ∈ live /\ ent_matches w f e).
+Proof. exact query_visits_exact. Qed.
+
+(** The same for the table list batch operations work on. *)
+Theorem C03_batch_tables_exact : forall w live f,
+  world_okr w live ->
+  NoDup (table_ents w (get_tables w f)) /\
+  forall e, e ∈ table_ents w (get_tables w f) <-> (e ∈ live /\ ent_matches w f e).
+Proof. exact get_tables_exact. Qed.
+
 Print Assumptions C03_next_enumerates.
+Print Assumptions C03_query_visits_exact.
 Print Assumptions C03_step.
 Print Assumptions C03_entity_at.
